@@ -41,6 +41,8 @@ EnumCases(zzdummy) ==
   \cup {Case("slice", len, a, b, 1, TRUE, IotaDoc(len)) : len \in 0..MaxLen, a \in Ends, b \in Ends}
   \cup {Case("slice", len, a, b, 0, FALSE, IotaDoc(len)) : len \in 0..2, a \in Ends, b \in Ends}           \* step 0 is an error whatever the endpoints
   \cup {Case("slice", 5, a, b, 0, FALSE, IotaDoc(5)) : a \in {None, Some(0), Some(2), Some(8), Some(-8), Some(-2)}, b \in {None, Some(0), Some(1), Some(3), Some(8), Some(-2), Some(-8)}}
+  \* the public method with step 0: it has no way to report an error, it must still return (and select nothing)
+  \cup {Case("method", len, a, b, 0, FALSE, IotaDoc(len)) : len \in {0, 1, 4}, a \in {None, Some(0), Some(3), Some(-1)}, b \in {None, Some(0), Some(1), Some(4)}}
   \* documents that hold nulls at selected positions: a slice selects positions, not contents (the public method keeps every one)
   \cup {Case("method", len, a, b, c, FALSE, NullDoc(len)) : len \in 1..MaxLen, a \in {None, Some(0), Some(1), Some(-1), Some(-2)},
                                                            b \in {None, Some(0), Some(2), Some(-1), Some(MaxLen)}, c \in {1, 2, -1, -2}}
